@@ -11,37 +11,37 @@ PY = "/venv/bin/python"
 CLAIMS = {
     "C02": dict(
         technique="sibling agreement of call-site bindings by def-use origin; step-offset forms of propagator indices; role-typed argument binding; memo-key rule over the system classes including memos kept on self by the propagator closures; truthiness tests of numeric options",
-        text="Decides that TEMPO and PT-TEMPO are wired to the same inputs at the same step indices (S1 influence arguments by origin, S2 propagator/step alignment, S3 role-typed plumbing, S4 dkmax/unique provenance, S5 both back ends fill every basis element of the dk=0 tensors from the reduced influence; S1 also: dk reaches influence_matrix unchanged). Numerical agreement of the two contractions is not decided. S7: no memo in the system classes leaves out of its key what the stored propagators were computed from (also the enclosing call's dt / start_time for a memo shared between closures). S8: numeric options are tested for 'not given' with `is None`, never for truthiness (0 is a value).",
+        text="Decides that TEMPO and PT-TEMPO are wired to the same inputs at the same step indices (S1 influence arguments by origin, S2 propagator/step alignment, S3 role-typed plumbing, S4 dkmax/unique provenance, S5 both back ends fill every basis element of the dk=0 tensors from the reduced influence; S1 also: dk reaches influence_matrix unchanged). Numerical agreement of the two contractions is not decided. S7: no memo in the system classes leaves out of its key what the stored propagators were computed from (also the enclosing call's dt / start_time for a memo shared between closures). S8: numeric options are tested for 'not given' with `is None`, never for truthiness (0 is a value). S9: an option for which None is a setting of its own (subdiv_limit) reaches the propagators as given. S10: get_* methods of the process-tensor classes never write the stores their setters own.",
         note="Trusted: Python ast; def-use engine; role vocabulary (oqv/roles.py). Partial claim: wiring only.",
         ref="2/C02"),
     "C01": dict(
         technique="path-conditioned reaching definitions (sign of dk, None-ness of dkmax / add_correlation_time, order of step and dkmax decided per case) with Laurent-polynomial forms of the cell bounds, influence indices and split indices; keyword binding of every truncating call; corner rule of the closed-form cell integrals (affine forms of the eta arguments, helpers written out); cache-key completeness of the memoised double antiderivative under value equality",
-        text="Claims C01 in part: the clause 'the memory settings have exactly their documented meaning' and the tolerance clause, as far as they are visible in the shape of the code - which grid cell of the autocorrelation function is integrated per separation and memory setting (N1), which separation enters the TEMPO / PT-TEMPO network at which step (N2), the tcut <-> dkmax conversion incl. nearest-integer rounding of tcut/dt (N3), every truncation uses the requested relative tolerance only (N4). Each is a necessary condition. Equality of the states with the analytic independent-boson solution or the explicit finite-mode evolution is not decided. N5: the closed-form coefficients evaluate the double antiderivative at the corners of the cells, not at rounded or clipped times. N6: correlations objects that differ in anything the integrand reads never share memoised coefficients.",
+        text="Claims C01 in part: the clause 'the memory settings have exactly their documented meaning' and the tolerance clause, as far as they are visible in the shape of the code - which grid cell of the autocorrelation function is integrated per separation and memory setting (N1), which separation enters the TEMPO / PT-TEMPO network at which step (N2), the tcut <-> dkmax conversion incl. nearest-integer rounding of tcut/dt (N3), every truncation uses the requested relative tolerance only (N4). Each is a necessary condition. Equality of the states with the analytic independent-boson solution or the explicit finite-mode evolution is not decided. N5: the closed-form coefficients evaluate the double antiderivative at the corners of the cells, not at rounded or clipped times. N6: correlations objects that differ in anything the integrand reads never share memoised coefficients. N7: both methods build the basis-change superoperators as left_right_super(U, U^dagger) / (U^dagger, U) (row-major vectorisation).",
         note="Trusted: Python ast; CFG/def-use engine; NodeArray.split/join argument order (index, far side first). Partial claim: structural necessary conditions only.",
         ref="7.2 (C01)"),
     "C03": dict(
         technique="sibling cross-check of the leg-role table of all PT-MPO consumers (edge-connection sites classified by the slots an edge is connected to / stored in); memo key / invalidation analysis; copy-vs-alias classification of setter stores, convention check of superoperator/cap application, guard presence, index-position discipline of the environment list; ownership analysis of in-place updates (reaching definitions plus return summaries of callees and closure factories); loop-exit analysis of the steppers (break in the last iteration vs running out of steps)",
-        text="Claims C03 in part: structural necessary conditions - all five consumers of a PT-MPO tensor agree on (past bond, future bond, system in, system out) and on the rank-3 delta expansion (M1), one convention for applying system superoperators and caps (M2), input guards (M3), list position of a process tensor only selects its own bond leg / cap / MPO (M4), no getter serves a memoised tensor outdated by a setter (M5), setters store independent copies (M6), caps close rank-3 / rank-4 tensors with trace_square / (trace_in, trace_out) in both compute_caps (M7). Exactness against an independent joint evolution is not decided; an error shared by producer and all consumers is invisible to this cross-check. M9: the contraction code never updates in place an array it does not own (propagators, controls, tensors handed out by their owners). M10: the pre-measurement control of the last step lies on every path to the final record.",
+        text="Claims C03 in part: structural necessary conditions - all five consumers of a PT-MPO tensor agree on (past bond, future bond, system in, system out) and on the rank-3 delta expansion (M1), one convention for applying system superoperators and caps (M2), input guards (M3), list position of a process tensor only selects its own bond leg / cap / MPO (M4), no getter serves a memoised tensor outdated by a setter (M5), setters store independent copies (M6), caps close rank-3 / rank-4 tensors with trace_square / (trace_in, trace_out) in both compute_caps (M7). Exactness against an independent joint evolution is not decided; an error shared by producer and all consumers is invisible to this cross-check. M9: the contraction code never updates in place an array it does not own (propagators, controls, tensors handed out by their owners). M10: the pre-measurement control of the last step lies on every path to the final record. M11: tensors are flattened for storage and restored in logical (C) order. M12: getters of the process-tensor classes are read-only with respect to the setter-owned stores.",
         note="Trusted: tensornetwork edge-connection semantics; numpy copy/alias table (np.array copies, np.asarray may not). Partial claim.",
         ref="7.2 (C03)"),
     "C04": dict(
         technique="algebraic shape checks: coefficient/operand form of every Lindblad dissipator, Kronecker-factor convention table of the superoperator builders, factor structure of the influence exponent, return-expression form of normalised read-outs; value-preservation analysis of the augmented MPS constructor; finite enumeration of the bond-matrix indices between recorded sites",
-        text="Claims C04 in part: the clauses that hold by construction - trace-annihilating form of every dissipator construction site (D1), one (A (x) B^T) superoperator convention so that commutators annihilate the trace (D2), normalised read-outs (D3), and the factor structure of the influence exponent that gives trace preservation of the last-leg sum and I(s+,s-)* = I(s-,s+) (D4), one transposition parity of the Hermitian half-step propagator along the Gibbs path (D5), caps closed with the right trace vectors per tensor rank (D6). Each is a necessary condition of unit trace / Hermiticity. Positivity and the numerical size of deviations after SVD truncation are not decided. D7: the augmented MPS keeps the gammas and lambdas it is given (value-preserving conversions only). D8: between two recorded sites the contraction uses exactly lambda_{a+1..b} and the traced tensors of sites a+1..b-1.",
+        text="Claims C04 in part: the clauses that hold by construction - trace-annihilating form of every dissipator construction site (D1), one (A (x) B^T) superoperator convention so that commutators annihilate the trace (D2), normalised read-outs (D3), and the factor structure of the influence exponent that gives trace preservation of the last-leg sum and I(s+,s-)* = I(s-,s+) (D4), one transposition parity of the Hermitian half-step propagator along the Gibbs path (D5), caps closed with the right trace vectors per tensor rank (D6). Each is a necessary condition of unit trace / Hermiticity. Positivity and the numerical size of deviations after SVD truncation are not decided. D7: the augmented MPS keeps the gammas and lambdas it is given (value-preserving conversions only). D8: between two recorded sites the contraction uses exactly lambda_{a+1..b} and the traced tensors of sites a+1..b-1. D9: PT-TEBD applies a single-site control as rho' = M rho (input axis contracted, output axis becomes the physical leg; controls handed over unchanged).",
         note="Trusted: Kronecker/vec convention stated in operators.py; eta.real/eta.imag real. Partial claim: structural necessary conditions only.",
         ref="2/C04 and 7.2"),
     "C05": dict(
         technique="typestate on matrices (HERMITIAN established -> decomposition must be of the Hermitian family); adjoint-pair operand check by flow into keyword / attribute; index calculus (dot, @, tensordot, einsum, moveaxis, .T) of the transformed MPO tensor; definite-initialisation rule of the rotation pair over the back-end class family; exchanged-argument rule over calls with known signatures",
-        text="Decides that the diagonalising transform comes from a solver whose contract gives a unitary transform and real eigenvalues for every Hermitian input (E1), and that forward/backward basis changes are mutual adjoints at every consumer (E2), Bath stores the solver's outputs unchanged (E3), and both get_mpo_tensor return M_in[k,i] T[a,b,i,j] M_out[j,l] (E4). Numerical covariance of dynamics is not decided. E2 also requires that every back-end class instantiated in the package builds the rotation pair before it rotates. E6: transform_in and transform_out (or any two plain names) are never passed in each other's positions.",
+        text="Decides that the diagonalising transform comes from a solver whose contract gives a unitary transform and real eigenvalues for every Hermitian input (E1), and that forward/backward basis changes are mutual adjoints at every consumer (E2), Bath stores the solver's outputs unchanged (E3), and both get_mpo_tensor return M_in[k,i] T[a,b,i,j] M_out[j,l] (E4). Numerical covariance of dynamics is not decided. E2 also requires that every back-end class instantiated in the package builds the rotation pair before it rotates. E6: transform_in and transform_out (or any two plain names) are never passed in each other's positions. E7: the coupling operator Bath stores in its eigenbasis is rotated back (U D U^dagger) or rejected by every reader outside bath.py. E8: a file-backed process tensor is re-opened with the transforms stored under the same keys.",
         note="Trusted: frozen numpy/scipy table (eigh family vs general eig). Partial claim.",
         ref="2/C05"),
     "C06": dict(
         technique="provenance (role) tags NORTH/WEST flowed from producer to every consumer by def-use; late-binding analysis of closures created in loops (free variables vs names the loop rebinds, fate of the closure)",
-        text="Decides role consistency of the two degeneracy maps from Bath to every consumer (R1) and that classes are equality classes of the full key tuple with an absolute tolerance (R2). Numerical equality of reduced and full runs is not decided. R4: no influence closure kept beyond a loop iteration reads a variable the loop rebinds (each species uses its own bath's degeneracy positions).",
+        text="Decides role consistency of the two degeneracy maps from Bath to every consumer (R1) and that classes are equality classes of the full key tuple with an absolute tolerance (R2). Numerical equality of reduced and full runs is not decided. R4: no influence closure kept beyond a loop iteration reads a variable the loop rebinds (each species uses its own bath's degeneracy positions). R5: the vectors that close the reduced legs (sum_north / sum_west) are vectors of ones on every path.",
         note="Trusted: def-use engine; numpy indexing semantics for a[idx] / outer. Partial claim.",
         ref="2/C06"),
     "C07": dict(
         technique="interprocedural def-use (argument reachability), co-selection by same mask, interval analysis of slice bounds, predicate pairing, loop-carried dependence on the CFG; composition-order rule of class Control including list slots folded at read time",
-        text="Decides the alignment bookkeeping of multi-time correlations: one time step for axes and dynamics (V1), values and write-back indices selected together (V2), no wrap-around in interval parsing (V3), anti-ordering swap-in/swap-out under one predicate (V4), NaN-initialised result written only at scheduled indices (V5), complementary ordering predicates (V6), operator-side table (V7), no working value carried between schedule entries (V8). Exactness of the values is not decided. V10: operators of a multi-time correlation that fall on the same step act in insertion order (Control composes with the new operation on the left, also when a slot is kept as a list and folded).",
+        text="Decides the alignment bookkeeping of multi-time correlations: one time step for axes and dynamics (V1), values and write-back indices selected together (V2), no wrap-around in interval parsing (V3), anti-ordering swap-in/swap-out under one predicate (V4), NaN-initialised result written only at scheduled indices (V5), complementary ordering predicates (V6), operator-side table (V7), no working value carried between schedule entries (V8). Exactness of the values is not decided. V10: operators of a multi-time correlation that fall on the same step act in insertion order (Control composes with the new operation on the left, also when a slot is kept as a list and folded). V11: bath dynamics rotate the stored (diagonalised) coupling operator back before computing system correlations.",
         note="Trusted: Python slice semantics table; def-use engine. Partial claim.",
         ref="2/C07"),
     "C08": dict(
@@ -51,17 +51,17 @@ CLAIMS = {
         ref="2/C08"),
     "C09": dict(
         technique="step-offset tags of times and state lists at every field_eom call; linear-form comparison of the Heun update; call-graph reachability of the shared network step; must-redefine on every loop path (sign analysis of the loop variable); late-binding analysis of closures created in loops; memo-key rule incl. caches validated by a stored key, over the mean-field front end and back end",
-        text="Decides time/state alignment of both Runge-Kutta stages (F1), the Heun form in both implementations (F2) that both back ends share one network-stepping routine (F3), and that the values carried between steps are renewed on every path of every later iteration (F4). Numerical agreement is not decided. F6: the per-system callables of a mean-field computation are not late-bound to the last system of a loop. F5 also covers the mean-field back end and caches validated by a stored key (a field value is not a time step).",
+        text="Decides time/state alignment of both Runge-Kutta stages (F1), the Heun form in both implementations (F2) that both back ends share one network-stepping routine (F3), and that the values carried between steps are renewed on every path of every later iteration (F4). Numerical agreement is not decided. F6: the per-system callables of a mean-field computation are not late-bound to the last system of a loop. F5 also covers the mean-field back end and caches validated by a stored key (a field value is not a time step). F7: compute_dynamics_with_field / MeanFieldTempo forward subdiv_limit = None (sample instead of integrate) unchanged.",
         note="Trusted: forms engine; step-tag facts listed in evidence. Partial claim.",
         ref="2/C09"),
     "C10": dict(
         technique="import resolvability by locating and parsing the imported package; effect/ordering rule on the parallel layer; dispatch sibling agreement; value-preservation analysis of the augmented MPS constructor; guarded-cache rule over the PT-TEBD back end; leg-role table of the PT-TEBD consumer",
-        text="Decides that every execution mode resolves its names (I1), that a parallel layer's result is independent of completion order (I2: snapshot before submit, pure worker, ordered consumption, write-back in caller after join) that all modes reach the same worker and write-back (I3), site weights (I5), Trotter layer coverage (I6), and the count of bond matrices / traced site tensors between two recorded sites as polynomials in the site indices (I7). Exactness against dense propagation is not decided. I8: a chain state saved with get_augmented_mps() and handed back is stored as given. I9: traces cached by an early return are reset by every method that changes the chain tensors. I10: PT-TEBD attaches a process tensor to a site with the leg roles every other consumer uses.",
+        text="Decides that every execution mode resolves its names (I1), that a parallel layer's result is independent of completion order (I2: snapshot before submit, pure worker, ordered consumption, write-back in caller after join) that all modes reach the same worker and write-back (I3), site weights (I5), Trotter layer coverage (I6), and the count of bond matrices / traced site tensors between two recorded sites as polynomials in the site indices (I7). Exactness against dense propagation is not decided. I8: a chain state saved with get_augmented_mps() and handed back is stored as given. I9: traces cached by an early return are reset by every method that changes the chain tensors. I10: PT-TEBD attaches a process tensor to a site with the leg roles every other consumer uses. I11: single-site gates are applied as rho' = M rho. I12: every bond gets a gate built for it in the same iteration (site = loop index).",
         note="Trusted: concurrent.futures semantics table (Executor.map preserves submission order; `with` joins). Partial claim.",
         ref="2/C10"),
     "C11": dict(
         technique="guarded-stepping rule (control dependence of stepping on step/target); return-expression form; polynomial form of the imaginary-time label; term-wise magnitude bound of the eta kernel beyond its overflow guard on the imaginary-time axis; degree-of-homogeneity calculus on the truncation comparisons of the Gibbs back end; adjoint check of spectral reconstructions (eigh / eig eigenvector matrices)",
-        text="Decides that repeating GibbsTempo.compute is idempotent (K1), that the returned state is X/X.trace() on every path (K2) the imaginary-time slice/label forms (K3), Matsubara coefficients on the imaginary-time grid (K4), even transposition parity of every propagator factor of the path (K5: orientation of the thermal state), Matsubara flag in every memo key (K6). Equality with the reduced thermal state is not decided. K8: the thermal eta kernel beyond its overflow guard keeps every term not bounded by exp(-w/T) for Matsubara arguments. K9: the Gibbs back end truncates relative to the largest singular value only (no absolute floor). K10: a matrix function rebuilt from eigh(H) uses the conjugate transpose of the eigenvector matrix.",
+        text="Decides that repeating GibbsTempo.compute is idempotent (K1), that the returned state is X/X.trace() on every path (K2) the imaginary-time slice/label forms (K3), Matsubara coefficients on the imaginary-time grid (K4), even transposition parity of every propagator factor of the path (K5: orientation of the thermal state), Matsubara flag in every memo key (K6). Equality with the reduced thermal state is not decided. K8: the thermal eta kernel beyond its overflow guard keeps every term not bounded by exp(-w/T) for Matsubara arguments. K9: the Gibbs back end truncates relative to the largest singular value only (no absolute floor). K10: a matrix function rebuilt from eigh(H) uses the conjugate transpose of the eigenvector matrix. K11: the imaginary-time path keeps its whole memory (GibbsTempo hands no memory length of its own to the back end; the Matsubara correlations are periodic).",
         note="Trusted: def-use/CFG engine. Partial claim.",
         ref="2/C11"),
     "C12": dict(
@@ -71,12 +71,12 @@ CLAIMS = {
         ref="2/C12"),
     "C13": dict(
         technique="role-typed quotient detection + rounding-idiom classification; path-conditioned slicing on record_all; polynomial forms of time labels; def-use pairing of insert indices; commit-last rule for step counters; all-or-none path rule for the parallel lists of the result containers; guarded-stepping analysis of the front ends; truthiness tests of time parameters",
-        text="Decides how floats become step counts and the form START + k*DT of every time label (G1-G4) for all front ends and steppers. G5: no step counter is advanced before a user callable of that step has returned. G6: time and value lists of Dynamics.add / MeanFieldDynamics.add are inserted together on every path and recorded times are not merged through a relative tolerance. G7: a computation stops at the requested grid point wherever it starts from (stepping depends on the current step and the target). G8: no parameter with a time role is tested for truthiness.",
+        text="Decides how floats become step counts and the form START + k*DT of every time label (G1-G4) for all front ends and steppers. G5: no step counter is advanced before a user callable of that step has returned. G6: time and value lists of Dynamics.add / MeanFieldDynamics.add are inserted together on every path and recorded times are not merged through a relative tolerance. G7: a computation stops at the requested grid point wherever it starts from (stepping depends on the current step and the target). G8: no parameter with a time role is tested for truthiness. G9: a front end that can be re-initialised re-creates the records its stepping appends to.",
         note="Trusted: role vocabulary (printed in evidence); forms engine. The floating-point value of the quotient itself is covered by requiring a tolerant conversion.",
         ref="2/C13"),
     "C14": dict(
         technique="control dependence of stepping calls on (step, target); effect analysis of getters; commit-last rule (persistent write before foreign call on some CFG path) with frozen triaged exceptions; export coverage of restart state; effect analysis of every state-changing call in compute() against (step, target) / run-once guards",
-        text="Decides continuation/idempotence guards of all five method objects (T1), idempotent getters (T2), failure atomicity of step transactions w.r.t. user callables (T3) and restart export coverage (T4). T8: compute() changes the computational state only through guarded stepping or run-once initialisation.",
+        text="Decides continuation/idempotence guards of all five method objects (T1), idempotent getters (T2), failure atomicity of step transactions w.r.t. user callables (T3) and restart export coverage (T4). T8: compute() changes the computational state only through guarded stepping or run-once initialisation. T9: initialize() of a restartable front end re-creates the accumulated results (a second run does not append to the first).",
         note="Trusted: effect tables (which attributes hold user callables - frozen with the chain that proves it). Numerical identity across the dkmax boundary not decided.",
         ref="2/C14"),
     "C15": dict(
@@ -86,7 +86,7 @@ CLAIMS = {
         ref="2/C15"),
     "C16": dict(
         technique="writer/reader key-table agreement; field coverage of export/import; nullness round-trip of setter/getter pairs; sibling agreement of the two get_mpo_tensor / PtTempo constructions; value-preservation analysis of export / import and of the HDF5 helpers; memo-key rule over the process-tensor getters incl. single-slot memos; exchanged-argument rule over calls with known signatures",
-        text="Decides table agreement of HDF5 keys (X1), field coverage of export and import (X2), None round-trip (X3), shape/data index pairing (X4), raw-vs-transformed discipline as an index-contraction signature of both get_mpo_tensor (X5), agreement of the two PtTempo constructions (X6), dtype table (X7). Bitwise equality through HDF5 is not decided. X9: export and import move tensors through value-preserving conversions only. X10: no getter of a process tensor serves a remembered value whose key leaves out an argument of the request (e.g. the transformed flag). X11: every field reaches the constructor parameter it is named after (no two names passed in each other's positions, also through super().__init__).",
+        text="Decides table agreement of HDF5 keys (X1), field coverage of export and import (X2), None round-trip (X3), shape/data index pairing (X4), raw-vs-transformed discipline as an index-contraction signature of both get_mpo_tensor (X5), agreement of the two PtTempo constructions (X6), dtype table (X7). Bitwise equality through HDF5 is not decided. X9: export and import move tensors through value-preserving conversions only. X10: no getter of a process tensor serves a remembered value whose key leaves out an argument of the request (e.g. the transformed flag). X11: every field reaches the constructor parameter it is named after (no two names passed in each other's positions, also through super().__init__). X12: flatten / restore in logical order. X13: reading does not change the process tensor (no getter writes a setter-owned store).",
         note="Trusted: h5py dataset API table. Partial claim.",
         ref="2/C16"),
     "C17": dict(
@@ -96,7 +96,7 @@ CLAIMS = {
         ref="2/C17"),
     "C18": dict(
         technique="operand-position check on accumulation sites identified by def-use; event-order check on the CFG with events classified by provenance; products of superoperators with feasible-path filtering; ownership analysis of in-place updates; sortedness requirement for itertools.groupby over stacked controls; late-binding analysis of control closures",
-        text="Decides composition order of stacked controls (O1), pre/record/post/propagate order of all steppers on every path (O2), float-time rounding and the None convention (O3). O2 reads products of controls and propagators (factors in cycle order, fused-in roles checked on feasible paths). O6: controls and propagators are never combined by updating a shared array in place. O1 also covers list slots folded at read time and requires groupby input sorted by its key. O7: no closure that looks controls up is late-bound to the last system / site of a loop.",
+        text="Decides composition order of stacked controls (O1), pre/record/post/propagate order of all steppers on every path (O2), float-time rounding and the None convention (O3). O2 reads products of controls and propagators (factors in cycle order, fused-in roles checked on feasible paths). O6: controls and propagators are never combined by updating a shared array in place. O1 also covers list slots folded at read time and requires groupby input sorted by its key. O7: no closure that looks controls up is late-bound to the last system / site of a loop. O8: a re-initialised PT-TEBD chain starts all of its run state again, so controls are applied as in a fresh object (no 'already applied' flag survives initialize()).",
         note="Trusted: `A @ B` applies B first; tensornetwork contraction is order-free.",
         ref="2/C18"),
     "C19": dict(
